@@ -288,9 +288,13 @@ func (m *Dense) Mul(a, b Matrix) {
 	m.reuseAsNonZeroed(ar, bc)
 	var restore func()
 	if m == aU {
+		// The checks below are skipped for the workspace, so check the
+		// other operand against the receiver proper here.
+		m.checkOverlapMatrix(bU)
 		m, restore = m.isolatedWorkspace(aU)
 		defer restore()
 	} else if m == bU {
+		m.checkOverlapMatrix(aU)
 		m, restore = m.isolatedWorkspace(bU)
 		defer restore()
 	}
